@@ -1,5 +1,6 @@
 """C16 — configuration is saved, duplicated and re-applied losslessly; user settings win (mask symmetry and guards)."""
 from lib import *  # noqa
+import outinit
 import order
 from order import nocast, key
 
@@ -387,3 +388,4 @@ def run(prog, R, tier):
     r_ident(prog, R)
     r_dup(prog, R, init)
     r_copyall(prog, R)
+    outinit.outinit_rule(prog, R, "R-C16-OUTINIT", only_types=("ares_sconfig_t", "ares_options", "apattern"), floor=2)
